@@ -45,3 +45,208 @@ SEARCH = {'c06_nullable_wrappers': ['c06_args']}
 BOUNDED = {'C06': [dict(case='c06_args', function='src/context.rs::{var_value, resolve_input_value_inner, get_param_value}, derive-generated argument extraction, src/dynamic/resolve.rs::collect_field argument block (through Schema::execute on a static and a dynamic schema)',
                         bound='~70 (query, variables) pairs: literal / variable / omitted / null arguments x variable defaults x argument defaults x nullable, non-null, MaybeUndefined, list and input-object targets; the value each resolver received is compared with the spec\'s CoerceArgumentValues',
                         why='closure-based iterator chains (.iter().find(..).ok_or_else(..), .or_else(..)), IndexMap-by-value loops and derive-generated code are outside Verus; only the nullable wrappers\' parse is under contract')]}
+
+
+# ----------------------------------------------------------------------------------------------------------------------
+# context.rs: var_value / resolve_input_value_inner / resolve_input_value / get_param_value against CoerceArgumentValues
+from vx.unit import ClosureMatch, IterFind, PostfixCall, MacroCall, LetChain  # noqa: E402
+from specs.common import value_types_ctx, ast_types, CTX_ALIAS                 # noqa: E402
+
+C = 'src/context.rs'
+
+CTX_SHIMS = r'''
+// field-subset shims (conformance-checked): ServerError, QueryEnv (= Arc<QueryEnvInner> through Deref, R-ty), ContextBase
+pub struct ServerError { pub message: String, pub locations: Vec<Pos> }
+pub type ServerResult<T> = Result<T, ServerError>;
+impl ServerError {
+    #[verifier::external_body]
+    pub fn new(message: String, pos: Option<Pos>) -> (r: ServerError) { unimplemented!() }
+}
+pub type Variables = NameMap<Value>;          // async_graphql_value::Variables(BTreeMap<Name, ConstValue>), Deref to the map
+pub struct QueryEnv { pub operation: Positioned<OperationDefinition>, pub variables: Variables }
+pub struct ContextBase<'a> { pub query_env: &'a QueryEnv }
+// derived Clone impls: structural copies
+impl Clone for Value {
+    #[verifier::external_body]
+    fn clone(&self) -> (r: Self) ensures r == *self { unimplemented!() }
+}
+impl Clone for Positioned<InputValue> {
+    #[verifier::external_body]
+    fn clone(&self) -> (r: Self) ensures r == *self { unimplemented!() }
+}
+// fn() -> Q: the argument default generated by the derive macros; opaque, deterministic (R-ty)
+#[verifier::external_body]
+#[verifier::reject_recursive_types(Q)]
+pub struct DefaultFn<Q> { _p: core::marker::PhantomData<Q> }
+impl<Q> DefaultFn<Q> {
+    pub uninterp spec fn spec_value(&self) -> Q;
+    #[verifier::external_body]
+    pub fn call(&self) -> (r: Q) ensures r == self.spec_value() { unimplemented!() }
+}
+// the target type's own input coercion: abstract
+pub trait InputType: Sized {
+    spec fn spec_parse(v: Option<Value>) -> Option<Self>;       // None = coercion error
+    fn parse(v: Option<Value>) -> (r: InputValueResult<Self>) ensures match r { Ok(x) => Self::spec_parse(v) == Some(x), Err(_) => Self::spec_parse(v) is None };
+}
+impl InputValueError {
+    #[verifier::external_body]
+    pub fn into_server_error(self, pos: Pos) -> (r: ServerError) { unimplemented!() }
+}
+pub fn pos_default() -> (r: Pos) ensures r.line == 0 && r.column == 0 { Pos { line: 0, column: 0 } }
+'''
+
+CTX_SPEC = r'''
+// ================= the spec's CoerceArgumentValues / variable lookup, stated independently of the code
+pub type Defs = Seq<Positioned<VariableDefinition>>;
+pub type Vars = Map<Seq<char>, Value>;
+pub open spec fn def_index(defs: Defs, name: Seq<char>) -> Option<int> {
+    if exists|i: int| 0 <= i < defs.len() && defs[i].node.name.node@ == name {
+        Some(choose|i: int| 0 <= i < defs.len() && defs[i].node.name.node@ == name && forall|j: int| 0 <= j < i ==> defs[j].node.name.node@ != name)
+    } else { None }
+}
+// value of variable `name` as an argument sees it: Err = not defined by the operation; Ok(None) = omitted (not provided, no default)
+pub open spec fn var_lookup(defs: Defs, vars: Vars, name: Seq<char>) -> Result<Option<Value>, ()> {
+    match def_index(defs, name) {
+        None => Err(()),
+        Some(i) => Ok(if vars.contains_key(name) { Some(vars[name]) } else { match defs[i].node.default_value { Some(d) => Some(d.node), None => None } }),
+    }
+}
+pub open spec fn env_defs(c: &ContextBase) -> Defs { c.query_env.operation.node.variable_definitions@ }
+pub open spec fn env_vars(c: &ContextBase) -> Vars { c.query_env.variables.view() }
+// resolving `v` fails: some variable used in it is not defined
+pub open spec fn resolve_fails(v: InputValue, defs: Defs, vars: Vars) -> bool decreases v {
+    match v {
+        InputValue::Variable(name) => var_lookup(defs, vars, name@) is Err,
+        InputValue::List(items) => exists|i: int| 0 <= i < items@.len() && resolve_fails(#[trigger] items@[i], defs, vars),
+        InputValue::Object(object) => exists|i: int| 0 <= i < object.ents().len() && resolve_fails((#[trigger] object.ents()[i]).1, defs, vars),
+        _ => false,
+    }
+}
+// `v` denotes "omitted": a variable that was not provided and has no default
+pub open spec fn omitted(v: InputValue, defs: Defs, vars: Vars) -> bool {
+    v is Variable && var_lookup(defs, vars, v->Variable_0@) == Ok::<Option<Value>, ()>(None)
+}
+// `r` is the value `v` denotes (given that resolving does not fail and v is not omitted): variables replaced by their values,
+// an omitted list slot is null, an omitted object field is left out, everything else is kept as written, in order
+pub open spec fn resolves_to(v: InputValue, defs: Defs, vars: Vars, r: Value) -> bool decreases v, 0nat {
+    match v {
+        InputValue::Variable(name) => var_lookup(defs, vars, name@) == Ok::<Option<Value>, ()>(Some(r)),
+        InputValue::Null => r is Null,
+        InputValue::Number(n) => r == Value::Number(n),
+        InputValue::String(s) => r == Value::String(s),
+        InputValue::Boolean(b) => r == Value::Boolean(b),
+        InputValue::Binary(b) => r == Value::Binary(b),
+        InputValue::Enum(e) => r == Value::Enum(e),
+        InputValue::List(items) => r is List && r->List_0@.len() == items@.len() && forall|i: int| 0 <= i < items@.len() ==>
+            (if omitted(items@[i], defs, vars) { (#[trigger] r->List_0@[i]) is Null } else { resolves_to(items@[i], defs, vars, r->List_0@[i]) }),
+        InputValue::Object(object) => r is Object && obj_resolves(object.ents(), object.ents().len(), defs, vars, r->Object_0.ents()),
+    }
+}
+pub open spec fn obj_resolves(es: Seq<(Name, InputValue)>, n: nat, defs: Defs, vars: Vars, out: Seq<(Name, Value)>) -> bool decreases es, n {
+    if n == 0 || n > es.len() { out.len() == 0 } else {
+        if omitted(es[n - 1].1, defs, vars) { obj_resolves(es, (n - 1) as nat, defs, vars, out) }
+        else { out.len() > 0 && out.last().0@ == es[n - 1].0@ && resolves_to(es[n - 1].1, defs, vars, out.last().1) && obj_resolves(es, (n - 1) as nat, defs, vars, out.drop_last()) }
+    }
+}
+pub open spec fn keys_subset(out: Seq<(Name, Value)>, es: Seq<(Name, InputValue)>, n: int) -> bool {
+    forall|i: int| 0 <= i < out.len() ==> exists|j: int| 0 <= j < n && es[j].0@ == (#[trigger] out[i]).0@
+}
+pub type Args = Seq<(Positioned<Name>, Positioned<InputValue>)>;
+pub open spec fn arg_index(args: Args, name: Seq<char>) -> Option<int> {
+    if exists|i: int| 0 <= i < args.len() && args[i].0.node@ == name {
+        Some(choose|i: int| 0 <= i < args.len() && args[i].0.node@ == name && forall|j: int| 0 <= j < i ==> args[j].0.node@ != name)
+    } else { None }
+}
+pub open spec fn arg_value(args: Args, name: Seq<char>) -> InputValue { args[arg_index(args, name)->Some_0].1.node }
+pub open spec fn arg_fails(args: Args, name: Seq<char>, defs: Defs, vars: Vars) -> bool { arg_index(args, name) is Some && resolve_fails(arg_value(args, name), defs, vars) }
+// the argument is "not provided": absent from the field, or bound to an omitted variable
+pub open spec fn arg_absent(args: Args, name: Seq<char>, defs: Defs, vars: Vars) -> bool { arg_index(args, name) is None || omitted(arg_value(args, name), defs, vars) }
+'''
+
+RESOLVE_ENS = lambda v: [
+    f'resolve_fails({v}, env_defs(self), env_vars(self)) <==> r is Err   // an undefined variable anywhere inside fails the request, nothing else does',
+    f'r is Ok ==> (omitted({v}, env_defs(self), env_vars(self)) <==> r->Ok_0 is None)   // omission is preserved, never turned into null (and vice versa)',
+    f'r is Ok && r->Ok_0 is Some ==> resolves_to({v}, env_defs(self), env_vars(self), r->Ok_0->Some_0)']
+
+
+def context_unit(kf):
+    u = Unit('c06_context_args', ['C06'], 'ContextBase::{var_value, resolve_input_value_inner, resolve_input_value, get_param_value} compute CoerceArgumentValues')
+    u.kf = kf
+    value_types_ctx(u)
+    ast_types(u, alias=CTX_ALIAS)
+    u.prelude('string_eq')
+    u.prelude('iter_shims')
+    u.trusted(CTX_SHIMS, 'context / error / InputType shims')
+    u.shim_conformance(C, ['struct ContextBase'], [('query_env', "&'a QueryEnv")])
+    u.shim_conformance(C, ['struct QueryEnvInner'], [('operation', 'Positioned<OperationDefinition>'), ('variables', 'Variables')])
+    u.shim_conformance('src/error.rs', ['struct ServerError'], [('message', 'String'), ('locations', 'Vec<Pos>')])
+    u.spec(CTX_SPEC, 'CoerceArgumentValues spec')
+    W = "<'a> ContextBase<'a>"
+    IMPL = "impl<'a, T> ContextBase<'a, T>"
+    u.extract_fn(C, [IMPL, 'fn var_value'], wrap_impl=W,
+                 rewrites=[MacroCall('format', 'verif_msg()', count=1),
+                           Sub('def.node.name.node == name', 'def.node.name.node.as_str() == name', rule='R-ty'),
+                           IterFind('vec_find', 'Positioned<VariableDefinition>', 'p__.node.name.node@ == name@', ref='&'),
+                           ClosureMatch('opt.ok_or_else', count='*'), ClosureMatch('opt.map', count='*'), ClosureMatch('opt.or_else', count='*'),
+                           PostfixCall('cloned', 'opt_cloned', count='*'), LetChain(count='*')],
+                 ensures=['match var_lookup(env_defs(self), env_vars(self), name@) { Err(_) => r is Err, Ok(v) => r == Ok::<Option<Value>, ServerError>(v) }'])
+    inv_list = ['whole is List, all == whole->List_0@',
+                'it.history@ + it.iter.remaining() == all',
+                'resolved_items@.len() == it.history@.len()',
+                'forall|i: int| 0 <= i < it.history@.len() ==> !resolve_fails(#[trigger] all[i], env_defs(self), env_vars(self))']
+    prop_list = ['forall|i: int| 0 <= i < resolved_items@.len() ==> (if omitted(all[i], env_defs(self), env_vars(self)) { (#[trigger] resolved_items@[i]) is Null } else { resolves_to(all[i], env_defs(self), env_vars(self), resolved_items@[i]) })']
+    inv_obj = ['whole is Object, all == whole->Object_0.ents(), keys_distinct(all)',
+               'it.history@ + it.iter.remaining() == all',
+               'forall|i: int| 0 <= i < it.history@.len() ==> !resolve_fails((#[trigger] all[i]).1, env_defs(self), env_vars(self))',
+               'keys_subset(resolved_object.ents(), all, it.history@.len() as int)']
+    prop_obj = ['obj_resolves(all, it.history@.len(), env_defs(self), env_vars(self), resolved_object.ents())']
+    u.extract_fn(C, [IMPL, 'fn resolve_input_value_inner'], wrap_impl=W,
+                 rewrites=[Sub('for item in items {', 'for item in it: items {', rule='R-iter'),
+                           Sub('for (name, value) in object {', 'for (name, value) in it: object.entries {', rule='R-iter'),
+                           Sub('IndexMap::with_capacity', 'IndexMapE::with_capacity', rule='R-ty')],
+                 ensures=RESOLVE_ENS('value'), decreases='value',
+                 head_proof='let ghost whole = value;',
+                 loops={0: dict(prop=prop_list, aux=inv_list,
+                                head='proof { assert(item == all[it.history@.len() as int]); }'),
+                        1: dict(prop=prop_obj, aux=inv_obj,
+                                head='''proof {
+    assert((name, value) == all[it.history@.len() as int]);
+    assert(decreases_to!(whole => whole->Object_0.entries@[it.history@.len() as int].1));
+    assert(resolve_fails(value, env_defs(self), env_vars(self)) ==> resolve_fails(whole->Object_0.ents()[it.history@.len() as int].1, env_defs(self), env_vars(self)));
+}
+let ghost before = resolved_object.ents();''')},
+                 inserts=[('before', 'for item in it: items', 'let ghost all = items@;'),
+                          ('before', 'for (name, value) in it: object.entries', 'let ghost all = object.ents();\nproof { use_type_invariant(&object); }'),
+                          ('after', 'resolved_object.insert(name, value);', '''proof {
+    assert(!has_key(before, name@));
+    assert(resolved_object.ents() == before.push((name, value)));
+    assert(resolved_object.ents().drop_last() =~= before);
+}''')],
+                 attrs=['#[verifier::loop_isolation(false)]'])
+    u.extract_fn(C, [IMPL, 'fn resolve_input_value'], wrap_impl=W,
+                 sig_rewrites=[ReSub(r'pub\(crate\) fn', 'fn')],
+                 ensures=RESOLVE_ENS('value.node'))
+    A = 'arguments@, name@, env_defs(self), env_vars(self)'
+    u.extract_fn(C, [IMPL, 'fn get_param_value'], wrap_impl=W,
+                 sig_rewrites=[ReSub(r'Option<fn\(\) -> Q>', 'Option<DefaultFn<Q>>')],
+                 rewrites=[IterFind('slice_find', '(Positioned<Name>, Positioned<InputValue>)', 'p__.0.node@ == name@'),
+                           ClosureMatch('opt.map', nth=0), PostfixCall('cloned', 'opt_cloned'),
+                           ClosureMatch('res.map'), ClosureMatch('res.map_err'),
+                           Sub('Pos::default()', 'pos_default()', rule='R-ty'),
+                           LetChain(count=1),
+                           Sub('default()', 'default.call()', rule='R-ty'),
+                           Sub('InputType::parse(value)', 'Q::parse(value)', rule='R-self')],
+                 ensures=[f'arg_fails({A}) ==> r is Err   // an undefined variable inside the argument: request error, the resolver is not reached',
+                          f'!arg_fails({A}) && arg_absent({A}) && default is Some ==> r is Ok && r->Ok_0.1 == default->Some_0.spec_value()   // not provided (absent, or bound to an omitted variable) and the argument has a default: the resolver receives the default',
+                          f'!arg_fails({A}) && arg_absent({A}) && default is None ==> (match r {{ Ok(x) => Q::spec_parse(None) == Some(x.1), Err(_) => Q::spec_parse(None) is None }})   // not provided, no default: the target type coerces "omitted"',
+                          f'!arg_fails({A}) && !arg_absent({A}) ==> exists|v: Value| resolves_to(arg_value(arguments@, name@), env_defs(self), env_vars(self), v) && (match r {{ Ok(x) => Q::spec_parse(Some(v)) == Some(x.1), Err(_) => Q::spec_parse(Some(v)) is None }})   // provided: the resolver receives the coercion of exactly the resolved value, or the request fails'])
+    u.assume('QueryEnv is Arc<QueryEnvInner> behind Deref: represented by the two fields the kernels read (conformance-checked)')
+    u.assume('derived Clone of Value / Positioned<InputValue> is a structural copy (assumed); fn() -> Q argument defaults are deterministic (DefaultFn shim)')
+    u.assume('the target type\'s InputType::parse is abstract (spec_parse); its own coercion rules are C07 / C06 wrapper kernels / derive output (not covered)')
+    u.assume('Iterator::find on slice/Vec iterators returns the first match (vec_find / slice_find shims, assumed contract on std)')
+    u.search_case('context.rs', 'c06_args')
+    return u
+
+
+UNITS['c06_context_args'] = (['C06'], context_unit)
+SEARCH['c06_context_args'] = ['c06_args']
